@@ -201,6 +201,12 @@ size_t varintDictEncodeWithDict(uint8_t *buffer, const varintDict *dict,
         return 0;
     }
 
+    /* The decoders reject dictionaries above VARINT_DICT_MAX_SIZE entries, so
+     * such an encoding could never be read back: refuse to produce it. */
+    if (dict->size > VARINT_DICT_MAX_SIZE) {
+        return 0;
+    }
+
     uint8_t *ptr = buffer;
 
     /* Write dictionary size */
@@ -444,6 +450,11 @@ size_t varintDictEncodedSize(const uint64_t *values, size_t count) {
 size_t varintDictEncodedSizeWithDict(const varintDict *dict,
                                      const size_t count) {
     if (!dict || count == 0) {
+        return 0;
+    }
+
+    /* Not encodable (see varintDictEncodeWithDict) */
+    if (dict->size > VARINT_DICT_MAX_SIZE) {
         return 0;
     }
 
